@@ -22,11 +22,13 @@ import random
 from vf import core
 
 THEOREMS = ["swap_roundtrip", "swap_sequence", "swap_fresh", "init_builds_frame",
-            "swap_clobbers_declared"]
+            "swap_clobbers_declared", "swap_prologue_unconditional", "stack_calls_shape"]
 STRATEGIES = ["MALLOC", "MMAP", "SPLIT"]
 OPTS = ["-O0", "-O2"]
 REGS = ["rbx", "rbp", "r12", "r13", "r14", "r15"]
 REC = 18
+BIG = 9216      # depth code: switch out from inside a 72 KB frame (new split-stack segment)
+BIGSTACK = 262144
 GEN = os.path.join(core.VERIF, "tools", "gen", "gen_ctx.py")
 M32 = (1 << 32) - 1
 
@@ -129,9 +131,34 @@ def gen_cases(ctx, tier, salt=0):
                 cur = to
         cases.append({"N": nctx, "sizes": [0] + [16384 + 8 * i for i in range(1, nctx)],
                       "params": [0] + [0xabcd0000 + i for i in range(1, nctx)], "mx": 0, "steps": steps})
+    cases += big_frame_cases()
     for _ in range(n):
-        cases.append(gen_case(rng, 40 if tier == "quick" else 200))
+        c = gen_case(rng, 40 if tier == "quick" else 200)
+        if rng.random() < 0.2:      # some chains switch out from 72 KB frames
+            c["sizes"] = [0] + [BIGSTACK + 16 * rng.randint(0, 64) for _ in range(c["N"] - 1)]
+            c["steps"] = [(to, BIG if rng.random() < 0.25 else d, pl) for (to, d, pl) in c["steps"]]
+        cases.append(c)
     return cases
+
+
+def big_frame_cases():
+    """a context is switched out once from a shallow frame, later from inside a
+    function with a 72 KB frame (with split stacks: from a different stack
+    segment), is resumed there and returns through that function: (a) the
+    thread context, (b) a created context, (c) both, (d) twice in a row."""
+    def pl(k):
+        return [0x0101010101010101 * (k + 1) + j for j in range(6)]
+
+    def mk(n, seq):
+        return {"N": n, "sizes": [0] + [BIGSTACK] * (n - 1), "params": [0] + [0x7700 + i for i in range(1, n)],
+                "mx": 0, "steps": [(to, d, pl(k)) for k, (to, d) in enumerate(seq)]}
+    return [
+        mk(2, [(1, 0), (0, 1), (1, BIG), (0, 0), (1, 2), (0, 0)]),                 # thread from big frame
+        mk(2, [(1, 0), (0, 0), (1, 1), (0, BIG), (1, 0), (0, 2)]),                 # created ctx from big frame
+        mk(3, [(1, 0), (2, 0), (0, 1), (1, BIG), (2, BIG), (0, 0), (2, BIG), (0, BIG), (1, 0), (0, 0)]),
+        mk(2, [(1, 1), (0, 0), (1, BIG), (0, BIG), (1, BIG), (0, 0)]),
+        mk(2, [(1, BIG), (0, 0), (1, 0), (0, 0)]),                                # first switch-out already big
+    ]
 
 
 # --------------------------------------------------------------------------
@@ -448,7 +475,7 @@ def run(ctx):
                 "of the assembly builds",
         "stack_released_once": "checked by the harness only (allocator/mmap/splitstack balance per "
                                "create/destroy), not a Coq theorem",
-        "case_distribution": {"systematic": 4, "random": len(cases) - 4},
+        "case_distribution": {"systematic": 4, "big_frame_scenarios": 5, "random": len(cases) - 9},
     })
     if ctx.failures and not ctx.violations:
         search(ctx, exes, drv)
